@@ -6,6 +6,8 @@ import (
 	"sort"
 	"strings"
 
+	"golang.org/x/tools/go/ssa"
+
 	"verifcheck/core"
 )
 
@@ -20,6 +22,27 @@ type Ctx struct {
 
 // Want reports whether the named rule should run (for -rule filtering).
 func (c *Ctx) Want(rule string) bool { return c.Only == "" || strings.Contains(rule, c.Only) }
+
+// Cur is the program being analysed (set by the command before a rule set
+// runs); isFn resolves repository functions through it, so that a renamed
+// unexported helper is still recognised through its recorded signature.
+var Cur *core.Prog
+
+var isFnCache = map[string]*ssa.Function{}
+
+// isFn reports whether cal is the repository function rel.name ("f" or "T.m").
+func isFn(cal *ssa.Function, rel, name string) bool {
+	if cal == nil || Cur == nil {
+		return false
+	}
+	key := rel + "|" + name
+	f, ok := isFnCache[key]
+	if !ok {
+		f = Cur.Func(rel, name)
+		isFnCache[key] = f
+	}
+	return f != nil && (cal == f || cal.Origin() == f)
+}
 
 // Registry maps property ids to rule sets.
 var Registry = map[string]func(*Ctx){}
